@@ -473,14 +473,20 @@ def _map_reaches_every_descendant(ctx):
     r = Retort(recipe=recipe)
     table = [(Root, Root(1), {"ID": 1}), (Child, Child(1, "n"), {"ID": 1, "NAME": "n"}), (Grand, Grand(1, "n", 5), {"GrandID": 1, "NAME": "n", "meta": {"created": 5}}),
              (Great, Great(1, "n", 5, 9, flag=True), {"GrandID": 1, "NAME": "n", "meta": {"created": 5}, "FLAG": True, "z": 9})]
+    # a generic descendant asked for with its arguments is the same model as the bare one (defect #93)
+    import typing as t  # noqa: PLC0415
+    T = t.TypeVar("T")
+    import types as _types  # noqa: PLC0415
+    GenKid = dataclass(_types.new_class("GenKid", (Child, t.Generic[T]), exec_body=lambda ns: ns.update({"__annotations__": {"payload": T}})))
+    table += [(GenKid, GenKid(1, "n", 7), {"ID": 1, "NAME": "n", "payload": 7}), (GenKid[int], GenKid(1, "n", 7), {"ID": 1, "NAME": "n", "payload": 7})]
     for cls, obj, doc in table:
-        d, l = attempt(r.dump, obj), attempt(r.load, doc, cls)
-        ctx.evaluated(("map-inheritance", cls.__name__), nontrivial=True)
+        d, l = attempt(r.dump, obj, cls), attempt(r.load, doc, cls)
+        ctx.evaluated(("map-inheritance", getattr(cls, "__name__", repr(cls))), nontrivial=True)
         ctx.count("dumps")
         if d.kind != "ok" or d.value != doc:
-            ctx.violation("dump-layout-mismatch:map-of-an-ancestor", f"{cls.__name__}: dump {d!r:.200}, the maps of its ancestors give {doc!r}", {"class": cls.__name__})
+            ctx.violation("dump-layout-mismatch:map-of-an-ancestor", f"{cls!r}: dump {d!r:.200}, the maps of its ancestors give {doc!r}", {"class": repr(cls)})
         if l.kind != "ok" or l.value != obj:
-            ctx.violation("load-layout-mismatch:map-of-an-ancestor", f"{cls.__name__}: load of {doc!r} gave {l!r:.200}", {"class": cls.__name__})
+            ctx.violation("load-layout-mismatch:map-of-an-ancestor", f"{cls!r}: load of {doc!r} gave {l!r:.200}", {"class": repr(cls)})
 
 
 def _omit_default_of_empty_factories(ctx):
